@@ -30,7 +30,7 @@ META = {
         'z3 (LRA + quantified monotonicity of the coordinate vector); A1 reals (np.isclose = exact equality, K8)',
     ],
     'assumptions': ['A1', 'A5', 'A7', 'coordinate vectors strictly increasing and inside [min, max]'],
-    'not_decided': ['N-d bookkeeping of insert / append / squeeze / byaxis / __getitem__ (not under contract yet)',
+    'not_decided': ['squeeze / byaxis / __getitem__ of partitions, grids and interval products (bounded native unit on the partition pool only; insert / append are under contract)',
                     'uniform_partition with shape missing (rounding of the computed node count)'],
 }
 
